@@ -47,4 +47,9 @@ def _c01():
             "replay_fn": pk.replay_fn, "replay_file_fn": pk.replay_file}
 
 
-PROPS = {"C20": _c20, "C01": _c01}
+def _c05():
+    import number as nk
+    return {"builders": [nk.build], "level": "proof", "explanation": "Boxed_Number::go / unary oper, all instantiations"}
+
+
+PROPS = {"C20": _c20, "C01": _c01, "C05": _c05}
